@@ -290,15 +290,34 @@ package bstree
 //@ guards bstree.BsTree.mu : root, size, all bstree.Node, all bstree.Item
 //@ lockinv bstree.BsTree : totalOrd(self.comp) && (self.root == nil || valid(self.root, self.comp, repr, keys, vals))
 
-// Traverse: only the locking is under contract (C01). The in-order content of what is sent over the channel and the
-// hand-over to the callback are not decided: channel operations carry no protocol in this verifier.
+// Traverse: Node.traverse is proved to SEND exactly the items of the subtree, once each, in comparator order (sends
+// are recorded in the call log), and the locking of Traverse is under contract (C01). That the consumer loop of Traverse
+// receives them all, in that order, and hands them to the callback is not decided: channel operations carry no protocol.
 //@ func (*bstree.Node).traverse
-//@   property C01
+//@   property C04 C01
 //@   opt nil-receiver
-//@   opt conc-only
+//@   opt ghost-out lpos
+//@   calllog
 //@   lock b.mu : R
-//@   requires b != nil
-//@   ensures true
+//@   ghost-param repr map[*Node]set[*Node]
+//@   ghost-param keys map[*Node]set[K]
+//@   ghost-param vals map[*Node]map[K]V
+//@   ghost lpos map[K]int
+//@   ghost lposL map[K]int
+//@   ghost lposR map[K]int
+//@   ghost b1 int
+//@   requires b != nil && totalOrd(b.comp) && (n != nil ==> valid(n, b.comp, repr, keys, vals))
+//@   ghost-at traverse#1: lposL = lpos
+//@   ghost-at traverse#1: b1 = logn
+//@   ghost-at traverse#2: lposR = lpos
+//@   exit-ghost lpos = lambda k K :: (n.Left != nil && k in keys[n.Left] ? lposL[k] : (k == n.Key ? b1 : lposR[k]))
+//@   ensures old(logn) <= logn && (n == nil ==> logn == old(logn))
+//@   ensures forall q int :: { logf(q) } { loga0(q, n.Item) } 0 <= q && q < old(logn) ==> logf(q) == old(logf(q)) && loga0(q, n.Item) == old(loga0(q, n.Item))
+//@   ensures n != nil ==> forall q int :: { logf(q) } { loga0(q, n.Item) } old(logn) <= q && q < logn ==> logf(q) == ch && loga0(q, n.Item).Key in keys[n] && loga0(q, n.Item).Val == vals[n][loga0(q, n.Item).Key]
+//@   ensures n != nil ==> forall k K :: { k in keys[n] } k in keys[n] ==> old(logn) <= lpos[k] && lpos[k] < logn && loga0(lpos[k], n.Item).Key == k
+//@   ensures forall q1 int, q2 int :: { loga0(q1, n.Item), loga0(q2, n.Item) } old(logn) <= q1 && q1 < q2 && q2 < logn ==> call(b.comp, loga0(q1, n.Item).Key, loga0(q2, n.Item).Key)
+//@   call traverse#1 ghost repr = repr; keys = keys; vals = vals
+//@   call traverse#2 ghost repr = repr; keys = keys; vals = vals
 
 //@ func (*bstree.BsTree).Traverse$1
 //@   property C01
@@ -309,6 +328,7 @@ package bstree
 //@   ghost-param vals map[*Node]map[K]V
 //@   requires b != nil
 //@   ensures true
+//@   call traverse#1 ghost repr = repr; keys = keys; vals = vals
 
 //@ func (*bstree.BsTree).Traverse
 //@   property C01
